@@ -170,7 +170,7 @@ theorem oldLive_reach {s} (h : Reach s) : s.oldLive = [] := by
   | init => rfl
   | step _ hs ih => exact oldLive_step ih hs
 
-/-- the number of the current context only grows, by one per `start()` -/
+/-- … hence every context other than the current one is cancelled -/
 theorem genCancelled_of_oldLive_nil {s : St} (h : s.oldLive = []) (g : Nat) (hg : g ≠ s.gen) :
     s.genCancelled g = true := by
   simp [St.genCancelled, hg, h]
